@@ -206,7 +206,7 @@ static void build_ops() {
 	if (opt.og & OG_REACT) add(OP_REACT);
 	if (opt.og & OG_QUERY) add(OP_QUERY);
 #if VX_PAYLOAD
-	if (opt.og & OG_PAYLOAD) for (int k_i = 0, k = g_ids[0]; k_i < g_nids; ++k_i, k = g_ids[k_i < g_nids ? k_i : 0]) { add(OP_CHANGEW, k, 1); add(OP_IMMW, k, 1); if (opt.og & OG_PAYLOAD2) { add(OP_CHANGEW, k, 2); add(OP_IMMW, k, 2); } }
+	if (opt.og & OG_PAYLOAD) for (int k_i = 0, k = g_ids[0]; k_i < g_nids; ++k_i, k = g_ids[k_i < g_nids ? k_i : 0]) { add(OP_CHANGEW, k, 1); add(OP_IMMW, k, 1); if (opt.og & OG_PAYLOAD2) { for (int tg = 2; tg <= 4; ++tg) { add(OP_CHANGEW, k, tg); add(OP_IMMW, k, tg); } } }
 #endif
 #if VX_MANUAL
 	if (opt.og & OG_MANUAL) { add(OP_ENTER); add(OP_EXIT); }
@@ -238,6 +238,7 @@ static void build_ops() {
 	if (opt.og & OG_PLAN) { for (int o_i = 0, o = g_ids[0]; o_i < g_nids; ++o_i, o = g_ids[o_i < g_nids ? o_i : 0]) for (int d_i = 0, d = g_ids[0]; d_i < g_nids; ++d_i, d = g_ids[d_i < g_nids ? d_i : 0]) add(OP_PLAN_CHANGE, o, d); add(OP_PLAN_CLEAR);
 #if VX_PAYLOAD
 		if (opt.og & OG_PAYLOAD) for (int o_i = 0, o = g_ids[0]; o_i < g_nids; ++o_i, o = g_ids[o_i < g_nids ? o_i : 0]) for (int d_i = 0, d = g_ids[0]; d_i < g_nids; ++d_i, d = g_ids[d_i < g_nids ? d_i : 0]) add(OP_PLAN_CHANGEW, o, d, 1);
+		if ((opt.og & OG_PAYLOAD) && (opt.og & OG_PAYLOAD2)) for (int o_i = 0, o = g_ids[0]; o_i < g_nids; ++o_i, o = g_ids[o_i < g_nids ? o_i : 0]) { add(OP_PLAN_CHANGEW, o, g_ids[0], 3); add(OP_PLAN_CHANGEW, o, g_ids[g_nids - 1], 4); }
 #endif
 	}
 	if (opt.og & OG_PLAN_REMOVE) for (unsigned m = 1; m < (1u << TASK_CAP) && m < 64; ++m) add(OP_PLAN_REMOVE, static_cast<int>(m));
